@@ -37,6 +37,7 @@ META = dict(
     design_ref="6 (growing the specification: asset administration, tokenmint)",
 )
 
+CHUNK = 40000
 TM_INV = "InvSupply InvModuleEmpty InvNonNeg"
 AA_INV = "InvState InvIds"
 
@@ -92,9 +93,11 @@ def _world(c, world, module, trace, cfgs, inv, runs, steps):
         # the repaired module: every law on every transition (design-level result, no dump)
         mcs.append(_mc(d, module, name + "-fixed", "Fix = TRUE  Emit = FALSE  " + k, inv, None, 4))
     logf = os.path.join(d, "%s.ndjson" % world.lower())
-    vlib.run_vh(["admin", "--world", world, "--tfile", tfile, "--out", logf, "--seed", str(c.seed), "--runs", str(runs), "--steps", str(steps)], timeout=3000)
+    vlib.run_vh(["admin", "--world", world, "--tfile", tfile, "--out", logf, "--seed", str(c.seed), "--runs", str(runs), "--steps", str(steps),
+                 "--chunk", str(CHUNK)], timeout=3000)
     os.remove(tfile)
-    tr = vlib.trace_check(d, trace, trace + ".cfg", logf, workers=4, timeout=3000, heap="6g")
+    # the harness keeps the log closed under parent / root pointers every CHUNK nodes ("Resume" roots), so TLC can judge it piecewise
+    tr = vlib.trace_check_chunked(d, trace, trace + ".cfg", logf, chunk_nodes=CHUNK, ptr_fields=("st.root",), workers=4, timeout=3000, heap="6g")
     props = {f: "XADM" for f, _ in tr["fails"] if f.startswith("ADM_")}
     c.judge(tr, logf, formula_props=props)
     return mcs, tr, logf
@@ -112,7 +115,7 @@ def run(c):
                                            "feePaid", "feeShort", "assetUpdates", "assetRenames", "assetUpdatesRefused", "pairsAdded", "pairsRefused",
                                            "pairUpdates", "pairUpdatesRefused", "extsAdded", "extsRefused", "extUpdates", "extUpdatesRefused", "multiRollback")})
     zero = [k for k, v in need.items() if v == 0]
-    if zero:
+    if zero and not c.violations:   # a law already found false on real-code states is a verdict; vacuity only guards an OK
         raise vlib.NoVerdict("vacuous run, antecedent counters are 0: %s" % zero)
     c.samples = sample_nodes(lt, {"MsgMint", "BurnForApp", "Emission", "Rebase"}) + sample_nodes(la, {"AddApp", "AddAssetInApp", "UpdateAsset", "AddExt", "UpdateExt"})
     mcs = mt + ma
